@@ -38,10 +38,9 @@ CONSTANTS MaxL,            \* local best is chosen in 0..MaxL
           MaxStops,        \* bound on external stop requests
           MaxExpire,       \* max number of running tasks that expire in one checkTaskTimeout call
           IgnoredStarts,   \* TRUE: explore SyncStart messages arriving while a session runs (ignored; a no-op)
-          RaceFinder,      \* TRUE: a GetHashByNoRsp may be handled after the finder gave up (timeout) but before the
-                           \*       actor handled the finder's SyncStop (the response was queued ahead of it)
-          RaceBuffer       \* TRUE: more than 2*MaxTasks responses for a block fetcher that has ended may be handled
-                           \*       before the actor handles the block fetcher's SyncStop
+          PreRepair        \* FALSE: the design (and the code since bcac7c21 / 9f6c2e3b): a response for a helper goroutine
+                           \*        that has ended is dropped.  TRUE: the code before those commits, kept only to document
+                           \*        the two counterexamples (PreRepair_Syncer_*.cfg): the actor blocks forever sending it.
 
 Peers == 1..NPeers
 Min2(a, b) == IF a < b THEN a ELSE b
@@ -173,7 +172,7 @@ FailAt(g, idx) ==
   IN IF g2.bad = Peers THEN Die(g2) ELSE g2
 
 \* a message for the block fetcher while its goroutine is gone sits in the buffered channel
-Buffered(g) == [g EXCEPT !.bfBuf = @ + 1]
+Buffered(g) == [g EXCEPT !.bfBuf = Min2(@ + 1, 2 * MaxTasks + 1)]
 
 \* GetBlockChunkRsp, valid and matching a running task of that peer
 OnChunkOk(g, p, s, c) ==
@@ -224,8 +223,8 @@ Commit(g, consumed) ==
   /\ f' = [g EXCEPT !.outs = {}, !.self = <<>>]
   /\ reqs' = (reqs \ consumed) \cup g.outs
   /\ selfq' = selfq \o g.self
-  /\ (g.bfBuf > 2 * MaxTasks) => RaceBuffer      \* bf.responseCh is full and nobody reads it: the send blocks forever
-  /\ blocked' = (blocked \/ g.bfBuf > 2 * MaxTasks)
+  \* a response for a block fetcher that has ended is buffered in responseCh or, when that is full, dropped (doneCh)
+  /\ blocked' = (blocked \/ (PreRepair /\ g.bfBuf > 2 * MaxTasks))
 
 \* the notification tells the truth: nil error only if every block anc+1..target was handed over and acknowledged
 SessionOutcomeOK(ok) ==
@@ -322,9 +321,9 @@ HashByNoRsp(kind) ==
      /\ kind = "err" => faults < MaxFaults
      /\ faults' = IF kind = "ok" THEN faults ELSE faults + 1
      /\ IF fd.st # "full"
-          THEN \* finder.GetHashByNoRsp blocks forever: nobody receives on fScanCh any more
-               /\ RaceFinder
-               /\ blocked' = TRUE /\ reqs' = reqs \ {r} /\ UNCHANGED <<fd, selfq>>
+          THEN \* the finder goroutine has ended (timeout) and its SyncStop is still queued: nobody receives on
+               \* fScanCh any more; Finder.GetHashByNoRsp drops the response (doneCh)
+               /\ blocked' = PreRepair /\ reqs' = reqs \ {r} /\ UNCHANGED <<fd, selfq>>
           ELSE /\ blocked' = blocked
                /\ IF kind = "err"
                     THEN /\ FinderFail(fd.last) /\ reqs' = reqs \ {r}
@@ -333,7 +332,7 @@ HashByNoRsp(kind) ==
                       ELSE IF r.a = 0 THEN FinderSearch(1, 0, fd.lm, fd.last, fd.c0)     \* break
                            ELSE FinderSearch(fd.lo, r.a - 1, fd.lm, fd.last, fd.c0)
   /\ UNCHANGED <<ch, rstored, seq, running, target, phase, anc, f, stale, notif, outcomeOK, stops>>
-  /\ lastAct' = [name |-> "HashByNoRsp", kind |-> kind]
+  /\ lastAct' = [name |-> "HashByNoRsp", kind |-> kind, late |-> (fd.st # "full")]
 
 \* the finder's wait for GetSyncAncestorRsp / GetHashByNoRsp times out
 FinderTimeout ==
@@ -510,6 +509,13 @@ HashReqSane == (phase = "fetch" /\ \E r \in reqs : r.k = "hashes") => f.hfSt = "
 
 \* the actor never blocks forever
 NoActorBlock == ~blocked
+
+\* "Traps" (Race_Syncer_*.cfg): invariants that are violated exactly when one of the two late-message schedules has
+\* occurred; TLC's counterexample is the schedule, which checks/c17.py replays on the real syncer.
+TrapLateFinderRsp == ~(lastAct.name = "HashByNoRsp" /\ lastAct.late)
+TrapBufferOverflow == f.bfBuf <= 2 * MaxTasks
+\* PreRepair_Syncer_buffer.cfg only: the actor blocked by the full response channel of an ended block fetcher
+NoBufferBlock == ~(blocked /\ phase = "fetch" /\ f.bfBuf > 2 * MaxTasks)
 
 \* a stopped syncer accepts the next SyncStart (Restartable): whenever idle with work left, SyncStart is enabled
 Restartable == (~running /\ ~blocked /\ seq < MaxSeq /\ LBest < ch.rbest) => ENABLED (\E t \in 1..MaxR : SyncStart(t))
